@@ -161,17 +161,22 @@ def make_kernel(ctx, kind, N, terms, sweeps, tmode, in_order):
                 obs.append(Ob('%s: a neutral move is taken at T > 0' % tag, z3.Not(z3.And(zdE == 0, zT > 0)), sig='neutral move rejected at T>0'))
             rd = [e for e in evs if e[0] == 'rand_double']; ex = [e for e in evs if e[0] == 'exp']
             uphill = z3.And(zdE > 0, zT > 0)
-            if len(rd) == 1 and len(ex) == 1 and symbolic:
+            if len(rd) == 1 and len(ex) == 1:
                 u = rd[0][1]; arg, e = ex[0][1], ex[0][2]
-                ap = to_poly(arg)
-                isq = len(ap) == 1 and list(ap.values()) == [1] and len(list(ap)[0]) == 1 and defs.get(list(ap)[0][0], (None,))[0] == 'div'
-                obs.append(Ob('%s: exp is applied to a quotient' % tag, z3.Implies(uphill, z3.BoolVal(isq)), sig='exp argument'))
-                if isq:
-                    _, n, d = defs[list(ap)[0][0]]
-                    obs.append(Ob('%s: the exp argument is exactly -dE/T' % tag, z3.Implies(uphill, z3.And(ctx.z(padd(n, to_poly(dE))) == 0, ctx.z(padd(d, to_poly(T), -1)) == 0)),
-                                  sig='exp argument'))
+                if symbolic:
+                    ap = to_poly(arg)
+                    isq = len(ap) == 1 and list(ap.values()) == [1] and len(list(ap)[0]) == 1 and defs.get(list(ap)[0][0], (None,))[0] == 'div'
+                    obs.append(Ob('%s: exp is applied to a quotient' % tag, z3.Implies(uphill, z3.BoolVal(isq)), sig='exp argument'))
+                    if isq:
+                        _, n, d = defs[list(ap)[0][0]]
+                        obs.append(Ob('%s: the exp argument is exactly -dE/T' % tag, z3.Implies(uphill, z3.And(ctx.z(padd(n, to_poly(dE))) == 0, ctx.z(padd(d, to_poly(T), -1)) == 0)),
+                                      sig='exp argument'))
+                else:
+                    # concrete replay of the interpreter: the quotient is computed, compare it with -dE/T directly
+                    obs.append(Ob('%s: exp is applied to a quotient' % tag, True, sig='exp argument'))
+                    obs.append(Ob('%s: the exp argument is exactly -dE/T' % tag, z3.Implies(uphill, ctx.z(arg) * zT == -zdE), sig='exp argument'))
                 obs.append(Ob('%s: uphill move accepted iff u < exp(-dE/T)' % tag, z3.Implies(uphill, (ctx.z(u) < ctx.z(e)) == z3.BoolVal(flipped)), sig='acceptance rule'))
-            elif symbolic:
+            else:
                 obs.append(Ob('%s: uphill moves at T > 0 consume exactly one uniform draw and one exp' % tag, z3.Not(uphill), info={'draws': len(rd), 'exps': len(ex)},
                               sig='draw count'))
             if flipped: state[i] = -state[i]
@@ -234,7 +239,8 @@ def jobs(tier, seed):
     P3 = [(0,), (0, 1), (0, 1, 2), (1, 2)]
     J.append(dict(name='facts', sig='facts', module='vq.props.c12', make='make_facts', args={}, budget_s=120, witness_all=0, witness_rate=0))
     # whole pipeline at T = 0 from a supplied initial state, several anneals (every anneal must start from that state)
-    PIPE = [('quso', 'QUSOMatrix', [(0,), (0, 1), (1, 2)], 2, 'T0', 'mixed'), ('quso', 'QUSOMatrix', [(0,), (1,), (0, 1), (1, 2), (0, 2)], 2, 'T00', 'up'),
+    PIPE = [('quso', 'QUSOMatrix', [(0,), (0, 1), (1, 2)], 2, 'T0', 'mixed'), ('quso', 'QUSOMatrix', [(1, 2), (0, 1), (0,), (2, 3), (0, 2)], 2, 'T00', 'mixed'),
+            ('quso', 'QUSOMatrix', [(0,), (1, 2)], 1, 'T00', 'mixed'), ('qubo', 'QUBOMatrix', [(1, 2), (0, 1), (2,)], 2, 'T0', 'up'), ('quso', 'QUSOMatrix', [(0,), (1,), (0, 1), (1, 2), (0, 2)], 2, 'T00', 'up'),
             ('quso', 'QUSOMatrix', [(0, 1), (1, 3)], 3, 'T0', 'down'), ('puso', 'PUSOMatrix', [(0, 1, 2), (1,), (0, 2)], 2, 'T0', 'mixed'),
             ('puso', 'PUSOMatrix', [(0, 1, 2), (2,)], 2, 'T00', 'up'), ('qubo', 'QUBOMatrix', [(0,), (0, 1), (1, 2)], 2, 'T0', 'mixed'),
             ('pubo', 'PUBOMatrix', [(0, 1, 2), (0,)], 2, 'T0', 'down')]
@@ -250,6 +256,8 @@ def jobs(tier, seed):
         add('quso', 3, K3, 1, 'zero', 0)
         add('quso', 4, C4, 1, 'sym', 1)
         add('quso', 2, [(0,), (0, 1)], 3, 'sym', 1)
+        add('quso', 3, [(0,), (1, 2)], 2, 'zero', 1)          # a spin with a field and no coupling, two sweeps
+        add('quso', 3, [(0,), (2,), (1, 2)], 2, 'sym', 1)
         add('puso', 3, P3, 2, 'zero', 1)
         add('puso', 3, P3, 1, 'sym', 1)
         add('puso', 3, [(0, 1, 2), (2,)], 1, 'sym', 0)
